@@ -1,6 +1,7 @@
 package main
 
 import (
+	"bytes"
 	"encoding/json"
 	"fmt"
 	"io"
@@ -455,6 +456,8 @@ func c16Run(s *c16Scn, enc *json.Encoder, mu *sync.Mutex) verdict {
 	clientGot := 0
 	readerDone := make(chan struct{})
 
+	var kept, keptCopy [][]byte
+
 	go func() { // client receives what the far end wrote
 		defer wg.Done()
 		defer close(readerDone)
@@ -464,6 +467,10 @@ func c16Run(s *c16Scn, enc *json.Encoder, mu *sync.Mutex) verdict {
 			if len(b) > 0 {
 				rec.recv("s2c", b, len(s2c))
 				clientGot += len(b)
+
+				// the chunk itself is kept, next to a copy of what it holds now
+				kept = append(kept, b)
+				keptCopy = append(keptCopy, append([]byte(nil), b...))
 			}
 
 			if rerr != nil {
@@ -479,6 +486,20 @@ func c16Run(s *c16Scn, enc *json.Encoder, mu *sync.Mutex) verdict {
 	select {
 	case <-allDone:
 	case <-time.After(16 * time.Second):
+	}
+
+	select {
+	case <-readerDone:
+		changed := 0
+
+		for i := range kept {
+			if !bytes.Equal(kept[i], keptCopy[i]) {
+				changed++
+			}
+		}
+
+		rec.add(map[string]interface{}{"ev": "kept", "dir": "s2c", "changed": changed})
+	default:
 	}
 
 	rec.add(map[string]interface{}{"ev": "end", "dir": "s2c"})
@@ -523,6 +544,26 @@ func c16Run(s *c16Scn, enc *json.Encoder, mu *sync.Mutex) verdict {
 	rec.add(map[string]interface{}{"ev": "unblock", "cause": cause, "returned": returned})
 
 	if cause == "peergone" {
+		if returned {
+			// the peer is gone for good: the next read returns too (with an error), and so does an orderly close
+			again := make(chan struct{})
+
+			go func() { _, _ = t.Read(); close(again) }()
+
+			ret2 := false
+
+			select {
+			case <-again:
+				ret2 = true
+			case <-time.After(2 * time.Second):
+			}
+
+			rec.add(map[string]interface{}{"ev": "unblock", "cause": "read-after-peergone", "returned": ret2})
+
+			fin, _ := withWatchdog(3*time.Second, func() { _ = t.Close(false) })
+			rec.add(map[string]interface{}{"ev": "unblock", "cause": "close-after-peergone", "returned": fin})
+		}
+
 		_, _ = withWatchdog(3*time.Second, func() { _ = t.Close(true) })
 	}
 
